@@ -444,6 +444,12 @@ theorem recK_physical : ∀ esu edu etu ftu tmsu,
     |recK esu edu etu ftu tmsu * C09.siSpeed tmsu / C09.siSpeed esu - 1| ≤ C09.tol := by
   decide +kernel
 
+/-- the edge length the energy is computed from (metres → the service's distance unit → the rate's
+distance unit) is physically the edge length within 0.1 percent, for all 25 unit pairs -/
+theorem edge_length_physical : ∀ sdu rd : DistanceUnit,
+    |dK baseDistanceUnit sdu * dK sdu rd * C09.siDistance rd / C09.siDistance baseDistanceUnit - 1| ≤ C09.tol := by
+  decide +kernel
+
 /-! ## The prediction cache -/
 
 /-- every cached rate is the prediction for every input that maps to its key (for the fixed units
